@@ -26,3 +26,9 @@ impl PartialEq for Value {
     #[verifier::external_body]
     fn eq(&self, other: &Value) -> bool { unimplemented!() }
 }
+
+// derived Debug (only its existence matters to the type checker; what it writes is `debug_val`, see axiom_fmt_debug_value)
+impl core::fmt::Debug for Value {
+    #[verifier::external_body]
+    fn fmt(&self, f: &mut core::fmt::Formatter<'_>) -> core::fmt::Result { unimplemented!() }
+}
